@@ -104,6 +104,7 @@ type StressRes struct {
 	Serials    map[string][]int64            `json:"serials,omitempty"`
 	CtxSerials map[string]map[string][]int64 `json:"ctx_serials,omitempty"`
 	Counts     map[string]int64              `json:"counts,omitempty"`
+	OKOps      map[string]int                `json:"ok_ops,omitempty"`
 }
 
 type Res struct {
@@ -755,19 +756,17 @@ func (l *Lab) stubBatch(b []*Unit, out map[string]*StubRes) error {
 	}
 	op := filepath.Join(dir, "out.jsonl")
 	rr := work.Run(bin, dir, l.W.SaneEnv(), 10*time.Minute, nil, op)
-	f, err := os.Open(op)
-	if err != nil {
-		return fmt.Errorf("stub probe produced no output: %v %s", err, rr.Stderr)
-	}
-	defer f.Close()
-	sc := bufio.NewScanner(f)
-	sc.Buffer(make([]byte, 1<<20), 1<<26)
-	for sc.Scan() {
-		var x StubRes
-		if json.Unmarshal(sc.Bytes(), &x) == nil {
-			xx := x
-			out[x.C] = &xx
+	if f, err := os.Open(op); err == nil {
+		sc := bufio.NewScanner(f)
+		sc.Buffer(make([]byte, 1<<20), 1<<26)
+		for sc.Scan() {
+			var x StubRes
+			if json.Unmarshal(sc.Bytes(), &x) == nil {
+				xx := x
+				out[x.C] = &xx
+			}
 		}
+		f.Close()
 	}
 	if rr.Exit != 0 && len(b) > 1 {
 		// init() of a stub package died: bisect
